@@ -1,5 +1,6 @@
 import CV.Drv.Util
 import CV.Model.Irc
+import CV.Model.IrcComp
 import CV.Drv.Line
 namespace CV.Drv
 open CV.Irc
@@ -69,6 +70,112 @@ def ircStep (s : Unit) : List String → Unit × String
     | none => (s, "bad-op")
   | _ => (s, "bad-op")
 
-def ircMachine : Machine := ⟨Unit, (), ircStep⟩
+/-! ### the component (IRC stacked on Line), `strip`, `parseprefix`, `from_string` -/
+
+structure IrcSt where
+  buf : Bytes := []
+  bufs : CV.Line.Bufs := []
+
+def showP3 (p : Prefix3) : String := s!"{showOpt p.1} {showOpt p.2.1} {showOpt p.2.2}"
+
+def showNatOpt : Option Nat → String
+  | none => "~"
+  | some n => toString n
+
+def showResp : Option Resp → String
+  | none => "err"
+  | some r =>
+    s!"resp {showStr r.name} {showNatOpt r.sock} {showP3 r.pfx} {showNatOpt r.num} | {" ".intercalate (r.args.map showStr)}"
+
+def showComp (b : Bytes) (outs : List (Option Resp)) (ws : List Bytes) : String :=
+  " ; ".intercalate (toHex b :: outs.map showResp ++ ws.map (fun w => s!"write {toHex w}"))
+
+def natOpt (t : String) : Option (Option Nat) :=
+  if t == "~" then some none else t.toNat?.map some
+
+def parseP3 : List String → Option Prefix3
+  | [a, b, c] =>
+    match optStr a, optStr b, optStr c with
+    | some a, some b, some c => some (a, b, c)
+    | _, _, _ => none
+  | _ => none
+
+def ircStep2 (s : IrcSt) : List String → IrcSt × String
+  -- cread <sock|~> <hex bytes> : one read event through Line + IRC
+  | ["cread", k, d] =>
+    match natOpt k, fromHex d with
+    | some none, some d =>
+      let (b, outs, ws) := compRead s.buf d
+      ({ s with buf := b }, showComp b outs ws)
+    | some (some k), some d =>
+      let (bs, outs, ws) := compServerRead s.bufs k d
+      ({ s with bufs := bs }, showComp (CV.Line.getBuf bs k) outs ws)
+    | _, _ => (s, "bad-op")
+  -- creq <pfx|~> <cmd|~> <arg>* : IRC.request(Message)
+  | "creq" :: pfx :: cmd :: args =>
+    match optStr pfx, optStr cmd, args.mapM strFromHex with
+    | some pfx, some cmd, some args =>
+      match requestBytes ⟨pfx, cmd, args.map (·.toList)⟩ with
+      | some w => (s, s!"write {toHex w}")
+      | none => (s, "error")
+    | _, _, _ => (s, "bad-op")
+  | ["fromstr", b] =>
+    match fromHex b with
+    | some b =>
+      match fromString b with
+      | some m => (s, s!"{showOpt m.pfx} {showOpt m.command} | {" ".intercalate (m.args.map showStr)}")
+      | none => (s, "error")
+    | none => (s, "bad-op")
+  | ["strip", col, t] =>
+    match col, strFromHex t with
+    | "0", some t => (s, showStr (strip pyIsDigit false t.toList))
+    | "1", some t => (s, showStr (strip pyIsDigit true t.toList))
+    | _, _ => (s, "bad-op")
+  | ["pprefix", t] =>
+    match strFromHex t with
+    | some t => (s, showP3 (parsePrefix t.toList))
+    | none => (s, "bad-op")
+  | ["decode", b] =>
+    match fromHex b with
+    | some b => (s, showStr (decodeUtf8 b))
+    | none => (s, "bad-op")
+  | ["pyint", t] =>
+    match strFromHex t with
+    | some t => (s, showNatOpt (pyInt t.toList))
+    | none => (s, "bad-op")
+  -- parameter tables
+  | ["ndtable"] => (s, showNats ndStarts)
+  | ["isspace", n] =>
+    match n.toNat? with
+    | some n => (s, if pyIsSpace (Char.ofNat n) then "1" else "0")
+    | none => (s, "bad-op")
+  -- spec on implementation output (component round trip):
+  --   comprt <sock|~> <pfx|~> <cmd|~> <arg>* | <name> <n|~> <u|~> <h|~> <num|~> <parg>*     (observed response)
+  --   comprt <sock|~> <pfx|~> <cmd|~> <arg>* | none                                          (nothing / failure observed)
+  | "comprt" :: k :: pfx :: cmd :: rest =>
+    let (args, obs) := splitBar rest
+    match natOpt k, optStr pfx, optStr cmd, args.mapM strFromHex with
+    | some k, some pfx, some cmd, some args =>
+      let m : Msg := ⟨pfx, cmd, args.map (·.toList)⟩
+      if !wellFormed pyIsSpace m then (s, "ok not-well-formed")
+      else match expectedResp k m with
+        | none => (s, "ok no-event-expected")
+        | some e =>
+          match obs with
+          | ["none"] => (s, "fail no-response")
+          | name :: a :: b :: c :: num :: pargs =>
+            match strFromHex name, parseP3 [a, b, c], natOpt num, pargs.mapM strFromHex with
+            | some name, some p3, some num, some pargs =>
+              let o : Resp := ⟨name.toList, k, p3, num, pargs.map (·.toList)⟩
+              if o = e then (s, "ok")
+              else if o.name != e.name || o.num != e.num then (s, "fail command")
+              else if o.pfx != e.pfx then (s, "fail prefix")
+              else (s, "fail args")
+            | _, _, _, _ => (s, "bad-op")
+          | _ => (s, "bad-op")
+    | _, _, _, _ => (s, "bad-op")
+  | op => (s, (ircStep () op).2)
+
+def ircMachine : Machine := ⟨IrcSt, {}, ircStep2⟩
 
 end CV.Drv
